@@ -94,7 +94,8 @@ def random_batch(rng, quick):
     return GB.BatchScenario(cls="batch", mode=rng.choice(["many", "original", "one", "one_original"]), d=d,
                             n_inner=rng.choice([1, 2, 4, 3]), n_override=rng.choice([None, None, 2]),
                             model_seed=rng.randrange(10 ** 6), rows=rows, seed=rng.randrange(2 ** 31),
-                            names=rng.choice(["idx", "str", "mixed"]), nlab=rng.choice([1, 1, 2, 3]), loss_object=rng.random() < 0.25)
+                            names=rng.choice(["idx", "str", "mixed"]), nlab=rng.choice([1, 1, 2, 3]), loss_object=rng.random() < 0.25,
+                            imputer_kind=rng.choice([None, None, "product"]), foreign=rng.random() < 0.3)
 
 
 def random_interval(rng, quick, calls=None):
